@@ -62,12 +62,23 @@ def _work(job):
     return res
 
 
-def run_paths(body, prefix=(), max_depth=None, max_samples=2):
+def run_paths(body, prefix=(), max_depth=None, max_samples=2, stop_after_cex=None, deadline_s=None):
     """Explore all feasible paths of body() below ``prefix``; body returns a dict
-    {'cex': [...], 'queries': int, 'sample': obj|None}."""
+    {'cex': [...], 'queries': int, 'sample': obj|None}.
+
+    stop_after_cex: stop exploring once that many counterexample candidates were found (they are replayed on the
+    real code: reproduced -> VIOLATION, not reproduced -> inconclusive; never a silent pass).
+    deadline_s: a unit that is still exploring after that many seconds is reported as inconclusive."""
     from symx import core
     out = {'paths': 0, 'cex': [], 'queries': 0, 'cuts': [], 'samples': [], 'inconclusive': [], 'obligations': 0}
+    t0 = time.time()
     for val, cx, status in core.explore(body, prefix=prefix, max_depth=max_depth):
+        if stop_after_cex and len(out['cex']) >= stop_after_cex:
+            out['cut_short'] = True
+            break
+        if deadline_s and time.time() - t0 > deadline_s:
+            out['inconclusive'].append(f'path exploration exceeded {deadline_s} s after {out["paths"]} paths')
+            break
         if status == 'cut':
             out['cuts'].append(list(val))
             continue
